@@ -567,7 +567,7 @@ class DEVSSimulator(Simulator[TIME], Generic[TIME]):
                  **kwargs) -> SimEventInterface:
         """schedule a methodCall at a relative duration. The execution 
         time is thus simulator.simulator_time + delay."""
-        if delay < 0:
+        if self._simulator_time + delay < self._simulator_time:
             raise DSOLError("cannot schedule event in the past")
         return self.schedule_event(SimEvent(self._simulator_time + delay,
                  target, method, priority, **kwargs))
